@@ -2,8 +2,11 @@ package main
 
 import (
 	"fmt"
+	"os"
+	"path/filepath"
 	"sort"
 	"strings"
+	"sync"
 	"time"
 
 	g "github.com/rminnich/go9p"
@@ -16,6 +19,7 @@ import (
 // every fid object.
 func genC11fid(c *Ctx) {
 	genFidTable(c, "C11", []string{"retain-vs-close", "dying-reuse", "mixed", "destroy-overlap"}, c.scale(120, 4000))
+	genC11ufs(c)
 }
 
 func genFidTable(c *Ctx, prop string, kinds []string, n int) {
@@ -90,7 +94,7 @@ func genFidTable(c *Ctx, prop string, kinds []string, n int) {
 				case 2:
 					s.write(s.send(51, func(fc *g.Fcall) error { return g.PackTopen(fc, x, g.OREAD) }))
 				}
-				second := waitc(p1.reached, 300*time.Millisecond)
+				second := waitc(p1.reached, 50*time.Millisecond)
 				close(p0.release)
 				p0 = nil
 				time.Sleep(time.Duration(200+r.Intn(2000)) * time.Microsecond)
@@ -123,8 +127,9 @@ func genFidTable(c *Ctx, prop string, kinds []string, n int) {
 			}
 			s.c.Close()
 		case "destroy-overlap":
-			// Conn.close is between marking a fid destroyed and telling the file server when the
-			// Tclunk (or Tremove) that was executing on that fid completes and destroys it too
+			// a Tclunk (or Tremove) is executing on a fid when the client disconnects: Conn.close takes the
+			// table's reference, the request's own release is the last one and destroys the fid — parked
+			// between marking it destroyed and telling the file server
 			x := uint32(1 + r.Intn(nf))
 			p := s.parkFidRule("fid.destroy.call", x, 0)
 			parks = append(parks, p)
@@ -140,10 +145,13 @@ func genFidTable(c *Ctx, prop string, kinds []string, n int) {
 			}
 			s.waitEntered([]int{rid}, f0, 2*time.Second)
 			s.c.Close()
-			if waitc(p.reached, 2*time.Second) {
-				c.count("destroy-overlap:close-parked")
+			if r.Intn(2) == 0 {
+				waitc(s.closeEnd, 5*time.Second)
 			}
 			s.release(rid)
+			if waitc(p.reached, 2*time.Second) {
+				c.count("destroy-overlap:destroy-parked")
+			}
 			time.Sleep(time.Duration(500+r.Intn(2000)) * time.Microsecond)
 			close(p.release)
 			parks = nil
@@ -228,6 +236,173 @@ func genFidTable(c *Ctx, prop string, kinds []string, n int) {
 		c.count("fid-table:" + kind)
 		s.emitLogEnded(c)
 		s.end()
+		c.emit(line, "*", true)
+	}
+}
+
+// Ufs with requests that hold their fid (or are about to look it up) when the client disconnects:
+// whatever the file server opens for them must be closed once they have returned — the file server
+// is told last that a fid is destroyed.
+func genC11ufs(c *Ctx) {
+	for k := 0; k < c.scale(40, 1200) && !c.stop(); k++ {
+		i := 700000 + k
+		r := c.rng(i)
+		dotu := r.Intn(2) == 0
+		nreq := 1 + r.Intn(3)
+		line := fmt.Sprintf("lifejudge C11 ufs-open-at-disconnect seed=%d dotu=%s requests=%d", i, b2s(dotu), nreq)
+		c.begin(line)
+		e, err := newC06srv("ufs", 8192, dotu, r)
+		if err != nil {
+			c.oracleFail("C11/setup", err.Error(), line)
+			continue
+		}
+		before := map[*g.Conn]bool{}
+		for _, cn := range g.VerifConns(e.srv) {
+			before[cn] = true
+		}
+		cn := e.newc()
+		var sc *g.Conn
+		for _, x := range g.VerifConns(e.srv) {
+			if !before[x] {
+				sc = x
+			}
+		}
+		rt := func(tag uint16, pack func(fc *g.Fcall) error) *g.Fcall {
+			fc := g.NewFcall(8192)
+			if pack(fc) != nil {
+				return nil
+			}
+			g.SetTag(fc, tag)
+			cn.SetWriteDeadline(time.Now().Add(3 * time.Second))
+			if _, err := cn.Write(fc.Pkt); err != nil {
+				return nil
+			}
+			buf, err := readFrame(cn, 3*time.Second)
+			if err != nil {
+				return nil
+			}
+			rc, _, err := g.Unpack(buf, dotu)
+			if err != nil {
+				return nil
+			}
+			return rc
+		}
+		ver := "9P2000"
+		if dotu {
+			ver = "9P2000.u"
+		}
+		uname := g.OsUsers.Uid2User(os.Getuid()).Name()
+		ok := rt(g.NOTAG, func(fc *g.Fcall) error { return g.PackTversion(fc, 8192, ver) }) != nil
+		if a := rt(1, func(fc *g.Fcall) error { return g.PackTattach(fc, 0, g.NOFID, uname, "", uint32(os.Getuid()), dotu) }); a == nil || a.Type != g.Rattach {
+			ok = false
+		}
+		type victim struct {
+			tag              uint16
+			point            string
+			reached, release chan bool
+			ended            chan bool
+			hit              bool
+		}
+		var vs []*victim
+		var mu sync.Mutex
+		closed := make(chan bool)
+		var closedOnce sync.Once
+		unsub := subscribe(func(point string, args []interface{}) {
+			if len(args) == 0 {
+				return
+			}
+			if point == "close.end" {
+				if x, isc := args[0].(*g.Conn); isc && x == sc {
+					closedOnce.Do(func() { close(closed) })
+				}
+				return
+			}
+			rq, isr := args[0].(*g.SrvReq)
+			if !isr || rq.Conn != sc {
+				return
+			}
+			mu.Lock()
+			var v *victim
+			for _, x := range vs {
+				if x.tag == rq.VerifTag() {
+					v = x
+				}
+			}
+			mu.Unlock()
+			if v == nil {
+				return
+			}
+			switch {
+			case point == v.point && !v.hit:
+				v.hit = true
+				close(v.reached)
+				select {
+				case <-v.release:
+				case <-time.After(10 * time.Second):
+				}
+			case point == "process.end":
+				close(v.ended)
+			}
+		})
+		// fids 1..nreq on files of the tree, then requests that open or create through them
+		for j := 1; ok && j <= nreq; j++ {
+			fid := uint32(j)
+			names := [][]string{{"file"}, {"dir", fmt.Sprintf("f%d", r.Intn(7))}, {"dir"}}[r.Intn(3)]
+			if w := rt(uint16(10+j), func(fc *g.Fcall) error { return g.PackTwalk(fc, 0, fid, names) }); w == nil || w.Type != g.Rwalk {
+				ok = false
+				break
+			}
+			v := &victim{tag: uint16(50 + j), point: []string{"process.fid", "process.fid", "process.check"}[r.Intn(3)],
+				reached: make(chan bool), release: make(chan bool), ended: make(chan bool)}
+			mu.Lock()
+			vs = append(vs, v)
+			mu.Unlock()
+			fc := g.NewFcall(8192)
+			if len(names) == 1 && names[0] == "dir" && r.Intn(2) == 0 {
+				g.PackTcreate(fc, fid, fmt.Sprintf("new%d", j), 0o644, g.ORDWR, "", dotu)
+			} else {
+				g.PackTopen(fc, fid, g.OREAD)
+			}
+			g.SetTag(fc, v.tag)
+			cn.SetWriteDeadline(time.Now().Add(3 * time.Second))
+			cn.Write(fc.Pkt)
+			waitc(v.reached, 2*time.Second)
+		}
+		cn.Close()
+		if r.Intn(3) > 0 {
+			waitc(closed, 5*time.Second)
+		}
+		for _, j := range r.Perm(len(vs)) {
+			close(vs[j].release)
+			if r.Intn(2) == 0 {
+				time.Sleep(time.Duration(r.Intn(300)) * time.Microsecond)
+			}
+		}
+		for _, v := range vs {
+			waitc(v.ended, 3*time.Second)
+		}
+		waitc(closed, 5*time.Second)
+		time.Sleep(2 * time.Millisecond)
+		unsub()
+		if !ok {
+			c.oracleFail("C11/setup", "Ufs session set-up failed", line)
+		} else {
+			// no descriptor on anything in the exported tree is left (directories included)
+			root := filepath.Join(e.outer, "export")
+			var left []string
+			ents, _ := os.ReadDir("/proc/self/fd")
+			for _, ent := range ents {
+				if l, err := os.Readlink(filepath.Join("/proc/self/fd", ent.Name())); err == nil && strings.HasPrefix(l, root) {
+					left = append(left, strings.TrimPrefix(l, root))
+				}
+			}
+			if len(left) > 0 {
+				sort.Strings(left)
+				c.oracleFail("C11/ufs-file-left-open", fmt.Sprintf("after the disconnect and the return of the executing requests the file server still holds descriptors on %v", left), line)
+			}
+		}
+		e.closef()
+		c.count("ufs-open-at-disconnect")
 		c.emit(line, "*", true)
 	}
 }
